@@ -32,6 +32,8 @@ def _validate(pid, traces, wd):
 
 _REPLAY = re.compile(r'^<<"REPLAY", "(.*)">>\s*$')
 _IRQ127 = {"tx": {1: 0x08, 512: 0x08}, "complete_rx": {2: 0x40, 512: 0x80}, "cad": {128: 0x04}}
+_IRQLR = {"tx": {1: 0x04, 512: 0x400}, "complete_rx": {2: 0x08, 512: 0x400}, "cad": {128: 0x100}}
+_IRQMAP = {"sx1276": _IRQ127, "lr1110": _IRQLR}
 
 
 def mc_behaviours(wd):
@@ -52,11 +54,11 @@ def mc_behaviours(wd):
     src = os.path.join(wd, "mcphy.ndjson")
     n = 0
     with open(src, "w") as f:
-        for chip in ("sx1262", "sx1276"):
+        for chip in ("sx1262", "sx1276", "lr1110"):
             for h in hs:
                 steps = []
                 for st in json.loads(h) + [{"call": "prep_tx", "irq": []}, {"call": "tx", "irq": [1]}]:
-                    irq = [(_IRQ127.get(st["call"], {}).get(x, x) if chip == "sx1276" else x) for x in st["irq"]]
+                    irq = [_IRQMAP.get(chip, {}).get(st["call"], {}).get(x, x) for x in st["irq"]]
                     steps.append({"call": st["call"], "irq": irq, "fault": -1, "cancel": False})
                 f.write(json.dumps({"chip": chip, "steps": steps}) + "\n")
                 n += 1
@@ -66,7 +68,7 @@ def mc_behaviours(wd):
     info = {"module": "MCPhy.tla", "design_states": mc["distinct"], "design_transitions": mc["generated"],
             "actions": mc["coverage"], "call_sequences_generated": len(hs), "histories_executed": n,
             "rule": "one call sequence per transition of the abstract driver + chip model (VIEW hides the history), each "
-                    "followed by prepare_for_tx + tx, on the SX1262 and the SX1276"}
+                    "followed by prepare_for_tx + tx, on the SX1262, the SX1276 and the LR1110"}
     return sorted(glob.glob(os.path.join(d, "phy.*.ndjson"))), info
 
 
@@ -105,7 +107,7 @@ def run():
             rep.violation({"property": PID, "chip": chip, "steps": steps, "failing_event": ev, "mismatch": [x[:1200] for x in lines[ln][:3]]},
                           f"{chip} history {[s['call'] for s in steps]}: {lines[ln][0][:300]}")
     for sig, n in sorted(seen_known.items()):
-        rep.known_finding(f"[S23] {sigs[sig]['line'][:300]} ({n} fault positions matched)")
+        rep.known_finding(f"[{sigs[sig].get('id', 'S23')}] {sigs[sig]['line'][:300]} ({n} occurrences matched)")
     # coverage
     calls, outcomes = {}, set()
     nev = 0
@@ -119,16 +121,16 @@ def run():
         "traces_validated_against_impl": info.get("histories", 0),
         "evaluations": nev, "distinct_nontrivial": len(outcomes),
         "rule": "histories = all API call sequences of the given depth over {init, sleep(warm/cold), prepare_for_tx, tx, prepare_for_rx(single/continuous/duty), "
-                "start_rx, complete_rx, rx_switch_channel, listen, prepare_for_cad, cad, set_lora_sync_word} x interrupt outcomes {done, timeout, CRC/header error, "
+                "start_rx, complete_rx, rx_switch_channel, listen, prepare_for_cad, cad, set_lora_sync_word, continuous_wave} x interrupt outcomes {done, timeout, CRC/header error, "
                 "preamble-then-done, spurious}; plus, for every prefix, a fault at EVERY bus event (SPI transfer, BUSY wait, DIO wait, reset, RF switch) of the last call "
                 "and a dropped future at the droppable interrupt wait, followed by a recovery call; distinct = distinct (call, driver mode before, result, error, "
                 "interrupt script, faulted, cancelled) tuples",
         "calls": calls, "depth": 3 if t else 2, "exhaustive": True, "spec_behaviours_replayed_into_impl": mcinfo,
         "samples": [[{k: e[k] for k in ("call", "pre_mode", "res", "err", "mode", "irq", "fault")} for e in core.read_events(traces[0], 4)]],
-        "explanation": "exhaustive over the stated call/outcome alphabet up to the stated depth on an emulated SX1262 (DC-DC + TCXO board) and an emulated SX1276 (TCXO, PA_BOOST), each also behind the LoRaWAN radio adapter (PhyRxTx calls tx / setup_rx(single|continuous) / rx_single / rx_continuous / low_power, one level deeper because the alphabet is small); LR11xx and SX1272 are not covered",
+        "explanation": "exhaustive over the stated call/outcome alphabet up to the stated depth on an emulated SX1262 (DC-DC + TCXO board), an emulated SX1276 (TCXO, PA_BOOST) and an emulated LR1110 (DC-DC, TCXO, DIO RF switch, HP PA), each also behind the LoRaWAN radio adapter (PhyRxTx calls tx / setup_rx(single|continuous) / rx_single / rx_continuous / low_power, one level deeper because the alphabet is small); the SX1272 is not covered",
     }
     return rep.finish("model_checking", cov, [
-        "the abstract SX126x and SX1276 in PhyTrace.tla (which command / RegOpMode value enters which mode, what a sleeping chip accepts, what survives warm/cold sleep or only a reset, how TxDone/RxDone/Timeout/CadDone end an operation) follow the datasheets; they are the trusted part",
+        "the abstract SX126x, SX1276 and LR1110 in PhyTrace.tla (which command / RegOpMode value enters which mode, what a sleeping chip accepts, what survives warm/cold sleep or only a reset, how TxDone/RxDone/Timeout/CadDone end an operation) follow the datasheets; they are the trusted part",
         "a call that returns an error without a single bus event and without changing the driver's mode is a refusal, not a failed operation (clause 1 territory): chip and driver are where the previous call left them",
         "a fault is a single transient failure of one bus event; a fault on the very command that restores standby is not held against clause 4",
         "an error in continuous reception leaves the decision to the caller (documented API contract)",
